@@ -12,7 +12,7 @@ import sys
 import z3
 
 from . import core
-from .core import (ANY, BOOL, DICT, INT, LIST, OBJ, OPT, REAL, SET, STR, TUP, Kind, Val, VList, STRINGS,
+from .core import (NONE, ANY, BOOL, DICT, INT, LIST, OBJ, OPT, REAL, SET, STR, TUP, Kind, Val, VList, STRINGS,
                    box, unbox, has_kind, keysort, to_key, from_key, tselect, tstore, tite, teq, tfresh,
                    tmap, tmap2, default_tree, sort_tree, parse_kind)
 from .source import Unsupported, ShapeMismatch, module as src_module, strip_docstring, decorators, loops_of, \
@@ -250,7 +250,7 @@ class Interp:
         if isinstance(v, SV):
             return v
         if v is None:
-            return SV(OPT(ANY), (z3.BoolVal(True), Val.VNone))
+            return SV(NONE, ())
         if isinstance(v, bool):
             return SV(BOOL, z3.BoolVal(v))
         if isinstance(v, int):
@@ -262,13 +262,17 @@ class Interp:
         if isinstance(v, tuple):
             parts = [self.lit(x) for x in v]
             return SV(TUP(*[p.kind for p in parts]), tuple(p.tree for p in parts))
+        if isinstance(v, list) and all(not isinstance(x, SV) or x.kind.tag not in MUTABLE_TAGS for x in v):
+            # a list literal used as an (immutable) attribute value: modelled as the tuple of its items
+            self.assumptions_used.add("A-attrlist: list literals stored as attribute values are modelled as tuples "
+                                      "(their identity/mutability is not tracked)")
+            parts = [self.lit(x) for x in v]
+            return SV(TUP(*[p.kind for p in parts]), tuple(p.tree for p in parts))
         raise Unsupported("cannot lift python value %r" % (v,))
 
     def as_any(self, v):
         """-> z3 Val term"""
         v = self.lit(v) if not isinstance(v, SV) else v
-        if v.kind.tag == "opt" and v.kind.args[0].tag == "any":
-            return z3.If(v.tree[0], Val.VNone, v.tree[1]) if not z3.is_true(v.tree[0]) else Val.VNone
         return box(v.kind, v.tree)
 
     def coerce(self, v, kind, st=None, what="value"):
@@ -288,6 +292,10 @@ class Interp:
         k0 = v.kind
         if kind.tag == "any":
             return SV(ANY, self.as_any(v))
+        if k0.tag == "none":
+            if kind.tag == "opt":
+                return SV(kind, (z3.BoolVal(True), default_tree(kind.args[0])))
+            raise Unsupported("None where %r is required (%s)" % (kind, what))
         if kind.tag == "opt":
             if k0.tag == "opt":
                 inner0, inner1 = k0.args[0], kind.args[0]
@@ -322,6 +330,10 @@ class Interp:
     def join_kinds(self, a, b):
         if a == b:
             return a
+        if a.tag == "none":
+            return OPT(b)
+        if b.tag == "none":
+            return OPT(a)
         if a.tag == "opt" and b.tag == "opt":
             return OPT(self.join_kinds(a.args[0], b.args[0]))
         if a.tag == "opt":
@@ -345,13 +357,7 @@ class Interp:
             return a
         if z3.is_false(c):
             return b
-        # None literal joins
-        if a.kind == OPT(ANY) and z3.is_true(a.tree[0]) and b.kind.tag != "any":
-            k = OPT(b.kind)
-        elif b.kind == OPT(ANY) and z3.is_true(b.tree[0]) and a.kind.tag != "any":
-            k = OPT(a.kind)
-        else:
-            k = self.join_kinds(a.kind, b.kind)
+        k = self.join_kinds(a.kind, b.kind)
         a2, b2 = self.coerce(a, k), self.coerce(b, k)
         return SV(k, tite(c, a2.tree, b2.tree))
 
@@ -366,6 +372,8 @@ class Interp:
         t = v.kind.tag
         if t == "bool":
             return v.tree
+        if t == "none":
+            return z3.BoolVal(False)
         if t == "int":
             return v.tree != 0
         if t == "real":
@@ -397,6 +405,15 @@ class Interp:
         a = self.lit(a) if not isinstance(a, SV) else a
         b = self.lit(b) if not isinstance(b, SV) else b
         ka, kb = a.kind, b.kind
+        if ka.tag == "none" or kb.tag == "none":
+            o = b if ka.tag == "none" else a
+            if o.kind.tag == "none":
+                return z3.BoolVal(True)
+            if o.kind.tag == "opt":
+                return o.tree[0]
+            if o.kind.tag == "any":
+                return o.tree == Val.VNone
+            return z3.BoolVal(False)
         if ka.tag == "opt" or kb.tag == "opt":
             na = a.tree[0] if ka.tag == "opt" else z3.BoolVal(False)
             nb = b.tree[0] if kb.tag == "opt" else z3.BoolVal(False)
@@ -466,6 +483,9 @@ class Interp:
             _, porigin, pkind, key = origin
             parent = self.load(st, porigin, pkind)
             return SV(kind, tselect(parent.tree[1], key), origin)
+        h = getattr(self, "origin_handlers", {}).get(tag)
+        if h:
+            return h[0](st, origin, kind)
         raise Unsupported("origin %r" % (tag,))
 
     def store(self, st, origin, sv):
@@ -486,6 +506,9 @@ class Interp:
             sv = self.coerce(sv, vk)
             newp = SV(pkind, (parent.tree[0], tstore(parent.tree[1], key, sv.tree)))
             return self.store(st, porigin, newp)
+        h = getattr(self, "origin_handlers", {}).get(tag)
+        if h:
+            return h[1](st, origin, sv)
         raise Unsupported("origin %r" % (tag,))
 
     # ------------------------------------------------------------------ heap
@@ -603,6 +626,9 @@ class Interp:
                 return self.eval_const_global(st, mod, name)
         if name in self.cset.classes:
             return ClassVal(name, None)
+        sm = self.cset.spec_mod
+        if mod is not sm and name in sm.globals:
+            return self.eval_const_global(st, sm, name)
         raise Unsupported("unresolved name %r" % name)
 
     def eval_const_global(self, st, mod, name):
@@ -703,6 +729,8 @@ class Interp:
         if isinstance(v, tuple):
             parts = [self.tup_to_sv(x) for x in v]
             return SV(TUP(*[p.kind for p in parts]), tuple(p.tree for p in parts))
+        if isinstance(v, ViewVal) or isinstance(v, IterSpec):
+            raise Unsupported("a view / iterator used as a value")
         return self.lit(v)
 
     def e_Set(self, e, st):
@@ -1129,6 +1157,10 @@ class Interp:
         return self.order(sym, a, b)
 
     def is_same(self, a, b):
+        if isinstance(a, SV) and a.kind.tag == "none":
+            a = None
+        if isinstance(b, SV) and b.kind.tag == "none":
+            b = None
         if a is None or b is None:
             other = b if a is None else a
             if other is None:
@@ -1232,8 +1264,21 @@ class Interp:
             arr = cont.tree if t == "set" else cont.tree[0]
             return z3.Select(arr, key)
         if t == "list":
-            i = z3.Int(core.fresh_name("i"))
             ek = cont.kind.args[0]
+            try:
+                ks = keysort(ek)
+            except TypeError:
+                ks = None
+            if ks is not None and ek.tag != "any":
+                # membership through the (cached) set of the list's elements: one array per list term, so repeated
+                # `x in xs` tests are syntactically the same select
+                cache = self.__dict__.setdefault("_list_sets", {})
+                key = tuple(l.get_id() for l in core.tleaves(cont.tree))
+                if key not in cache:
+                    cache[key] = self.to_set_value(None, SV(cont.kind, cont.tree))
+                sset = cache[key]
+                return z3.Select(sset.tree, to_key(ek, self.coerce(self.tup_to_sv(item), ek, what="membership").tree))
+            i = z3.Int(core.fresh_name("i"))
             elt = SV(ek, tselect(cont.tree[1], i))
             return z3.Exists([i], z3.And(0 <= i, i < cont.tree[0], self.py_eq(elt, item)))
         if t == "tuple":
